@@ -34,6 +34,7 @@ func init() {
   list bn { key k; leaf k { type binary; } leaf v { type string; } }
   list bt { key k; leaf k { type bits { bit a; bit b; bit c; } } leaf v { type string; } }
   list dk { key k; leaf k { type decimal64 { fraction-digits 2; } } leaf v { type string; } }
+  list d8 { key k; leaf k { type decimal64 { fraction-digits 8; } } leaf v { type string; } }
   list uk { key k; leaf k { type union { type int32; type string; } } leaf v { type string; } }
   list ik { key k; leaf k { type identityref { base idb; } } leaf v { type string; } }
   list u6 { key k; leaf k { type uint64; } leaf v { type string; } }
@@ -139,6 +140,7 @@ func c08Tree(m *meta.Module, name string) *model.Tree {
 			"bn": {"YS9i", "+/+/", "YQ==", "////"}, // base64 with '/', '+' and '=' padding
 			"bt": {"a", "a b", "a b c", "c"},
 			"dk": {"1.50", "-0.25", "0.00", "92233720368547758.07"},
+			"d8": {"0.12345678", "0.12345679", "-1.00000001", "1"},
 			"uk": {"5", "a/b", "x,y", "-7"},
 			"ik": {"id1", "id2"},
 			"u6": {"0", "18446744073709551615", "9223372036854775808"},
@@ -198,8 +200,13 @@ func keyPlain(v val.Value) string {
 	case val.Enum:
 		return x.Label
 	case val.Decimal64:
-		// any lexical form of the number will do, this one differs from the canonical one
-		return strconv.FormatFloat(float64(x), 'f', 6, 64)
+		// any lexical form of the number will do, this one differs from the canonical one (trailing
+		// zeros) and keeps every digit
+		t := strconv.FormatFloat(float64(x), 'f', -1, 64)
+		if !strings.Contains(t, ".") {
+			t += "."
+		}
+		return t + "00"
 	}
 	return model.Lex(v)
 }
